@@ -315,6 +315,29 @@ func c02Big(id string, shape string, sizes []int, r *rand.Rand) wj.J {
 		rd := binary.Default.Reader(ch)
 		o["sdec"] = digestParts(sx.ReadValue(rd, v.Type()))
 		rd.Close()
+		// the encoding cut short (by 1 byte, by a few thousand): every reader has to notice, however large the part that did arrive
+		truncs := []wj.J{}
+		for _, cut := range []int{1, 3000} {
+			if cut >= len(enc) {
+				continue
+			}
+			short := enc[:len(enc)-cut]
+			tr := wj.J{"cut": cut, "dec": "unset", "sdec": "unset", "skip": "unset"}
+			dv, derr := binary.Default.Decode(bytes.NewReader(short), v.Type())
+			if derr == nil {
+				_, derr = wj.Force(dv)
+			}
+			tr["dec"] = errClass(derr)
+			srd := binary.Default.Reader(sx.NewChunked(short, "rand", int64(cut)))
+			_, serr := sx.ReadValue(srd, v.Type())
+			srd.Close()
+			tr["sdec"] = errClass(serr)
+			krd := binary.Default.Reader(sx.NewChunked(short, "all", 1))
+			tr["skip"] = errClass(krd.Skip(v.Type()))
+			krd.Close()
+			truncs = append(truncs, tr)
+		}
+		o["truncs"] = truncs
 		// the same value written with WriteString and read with ReadString (what generated code does for string fields)
 		var tbuf bytes.Buffer
 		tw := binary.Default.Writer(&tbuf)
